@@ -212,6 +212,149 @@ def _all():
     return out
 
 
+class PolarsArrayShape(Contract):
+    """polars_engine.Array.from_parametrized_dtype: a polars Array type of rank r exposes `shape` = (d0, ..., d_{r-1}) and `inner` = the
+    array type of the REMAINING dimensions (d1, ...) (for r = 1: the element type) - so the equal spelling is Array(inner, d0): the
+    constructor must receive `inner` itself and, as shape, the OUTER dimension only (d0, (d0,), or for r = 1 the whole 1-tuple).
+    polars fact assumed (checked by the native replay below): pl.Array(pl.Array(T, (d1, ..)), d0) == pl.Array(T, (d0, d1, ..))."""
+
+    target = "pandera.engines.polars_engine:Array.from_parametrized_dtype"
+    check_frame = False
+    split = {"rank": [1, 2, 3]}
+
+    def make_args(self):
+        r = self.fixed.get("rank", 1)
+        dims = tuple(core.sym_int(f"d{k}") for k in range(r))
+        for k, d in enumerate(dims):
+            cur().assume(d >= 1)
+            core.register_model_var(f"d{k}", d.z)
+        ctor = SymCallable("cls", T.Any, raises=False)
+        native = T.Ref(None, inner=T.Any).fresh("native")
+        native.attrs["shape"] = dims
+        native.attrs0["shape"] = dims
+        cur().ghost.update(ctor=ctor, dims=dims)
+        return {"cls": ctor, "polars_dtype": native}
+
+    def call_target(self, I, fn, a):
+        return I.call(fn, [a["cls"], a["polars_dtype"]], {})
+
+    def ensures(self, result, old, cls, polars_dtype):
+        ctor, dims = cur().ghost["ctor"], cur().ghost["dims"]
+        out = {"constructs_exactly_one_instance": len(ctor.calls) == 1}
+        if len(ctor.calls) != 1:
+            return out
+        args, kw = ctor.calls[0]
+        passed = dict(zip(("inner", "shape"), args))
+        passed.update(kw)
+        out["forwards_inner_itself"] = passed.get("inner") is polars_dtype.attrs["inner"]
+        sh = passed.get("shape")
+        out["no_deprecated_width"] = passed.get("width") is None
+        out["shape_is_the_outer_dimension"] = sh is dims[0] or (isinstance(sh, tuple) and len(sh) == 1 and sh[0] is dims[0])
+        return out
+
+    def concretize(self, rec):
+        def thunk():
+            import warnings
+
+            import polars as pl
+            from pandera.engines import polars_engine as PE
+
+            warnings.simplefilter("ignore")
+            bad, obs = False, {}
+            for t in (pl.Array(pl.Int8, 3), pl.Array(pl.Int8, (2, 3)), pl.Array(pl.Int8, (2, 3, 4)), pl.Array(pl.Int8, (2, 2))):
+                obs[f"polars fact for {t}"] = pl.Array(t.inner, t.shape[0]) == t
+                got = PE.Engine.dtype(t).type
+                if got != t:
+                    bad = True
+                    obs[repr(t)] = f"resolved to a type boxing {got!r}"
+            return bad, obs
+
+        return thunk
+
+
+class ArrowBinaryKind(Contract):
+    """pandas_engine.ArrowBinary.from_parametrized_dtype is registered for `pyarrow.DataType` - the class of pa.binary(), but ALSO of
+    every primitive pyarrow type (pa.int64(), pa.float64(), ...).  A spelling must resolve to a type of its own kind:
+        binary / fixed-size binary native  ->  ArrowBinary(length=native.byte_width)   (the generic forwarding contract)
+        any other native                    ->  never boxed as binary: resolved through the registry (as its ArrowDtype) or TypeError"""
+
+    target = "pandera.engines.pandas_engine:ArrowBinary.from_parametrized_dtype"
+    check_frame = False
+    raises = (TypeError,)
+    split = {"kind": ["binary", "fixed_size_binary", "other"]}
+
+    def setup(self, I):
+        import pandas as pd
+        import pyarrow.types as pt
+        from pandera.engines import engine as ENG
+        from pyvc.theories.opaque import OpaqueVal
+
+        kind = self.fixed.get("kind", "binary")
+        I.models[id(pt.is_binary)] = lambda I_, t: kind == "binary"
+        I.models[id(pt.is_fixed_size_binary)] = lambda I_, t: kind == "fixed_size_binary"
+        I.models[id(pt.is_large_binary)] = lambda I_, t: False
+
+        def wrap(I_, t, *a, **k):
+            v = OpaqueVal("pd.ArrowDtype(native)")
+            cur().ghost["wrapped"] = (t, v)
+            return v
+
+        I.models[id(pd.ArrowDtype)] = wrap
+
+        def resolve(I_, cls, data_type):
+            # the registry (engine.Engine.dtype): an equivalent registered for this spelling, or TypeError
+            cur().ghost.setdefault("resolved", []).append(data_type)
+            if cur().choose([("registered", None), ("unknown", None)], "registry") == 1:
+                I_.raise_py(TypeError, "not understood")
+            r = OpaqueVal("registered type")
+            cur().ghost["registry_result"] = r
+            return r
+
+        f = ENG.Engine.__dict__["dtype"]
+        I.models[id(getattr(f, "__func__", f))] = resolve
+
+    def make_args(self):
+        ctor = SymCallable("cls", T.Any, raises=False)
+        native = T.Ref(None, byte_width=T.Any).fresh("native")
+        cur().ghost["ctor"] = ctor
+        return {"cls": ctor, "pyarrow_dtype": native}
+
+    def call_target(self, I, fn, a):
+        return I.call(fn, [a["cls"], a["pyarrow_dtype"]], {})
+
+    def ensures(self, result, old, cls, pyarrow_dtype):
+        g = cur().ghost
+        if self.fixed.get("kind", "binary") != "other":
+            return {"a_binary_type_is_boxed_as_binary": len(g["ctor"].calls) == 1}
+        w = g.get("wrapped")
+        return {"a_non_binary_type_is_never_boxed_as_binary": len(g["ctor"].calls) == 0,
+                "what_is_returned_is_what_the_registry_holds_for_it": result is g.get("registry_result") and (w is None or w[0] is pyarrow_dtype)}
+
+    def on_raise(self, exc, old, cls, pyarrow_dtype):
+        return {"TypeError_only_for_an_unregistered_non_binary_type": self.fixed.get("kind") == "other" and len(cur().ghost["ctor"].calls) == 0}
+
+    def concretize(self, rec):
+        def thunk():
+            import warnings
+
+            import pyarrow as pa
+            from pandera.engines import pandas_engine as PE
+
+            warnings.simplefilter("ignore")
+            bad, obs = False, {}
+            for sp, want in ((pa.int64(), "int64[pyarrow]"), ("float64[pyarrow]", "double[pyarrow]"), (pa.date32(), "date32[day][pyarrow]"), (pa.binary(), "binary[pyarrow]"),
+                             (pa.binary(4), "fixed_size_binary[4][pyarrow]")):
+                try:
+                    got = str(PE.Engine.dtype(sp))
+                except TypeError as e:
+                    got = "TypeError"
+                obs[repr(sp)] = got
+                bad = bad or got not in (want, "TypeError")
+            return bad, obs
+
+        return thunk
+
+
 def converters_have_an_oracle():
     """structural: every registered converter is covered by a forwarding contract (a new converter without a native sample shows up here)"""
     recs = []
@@ -221,5 +364,5 @@ def converters_have_an_oracle():
     return recs
 
 
-CONTRACTS = _all()
+CONTRACTS = _all() + [PolarsArrayShape, ArrowBinaryKind]
 STRUCTURAL = [converters_have_an_oracle]
